@@ -38,3 +38,21 @@ Theorem run_ok ops : wf_opsb ops = true -> ok_C03 (run ops) = true.
 Proof.
   intros H. unfold ok_C03, run. rewrite (run_from_ok ops [] 0%N); [reflexivity | constructor | exact H].
 Qed.
+
+(** statement forms used by Props/C03.v *)
+Lemma no_blackout_In ls last now cfg exps :
+  Forall wfl ls -> forallb exp_okb exps = true ->
+  (exists c, In c ls /\ usable_spec now (c_timeout cfg) c = true) ->
+  exists i, fst (select ls last now cfg exps) = Some i /\ (i < length ls)%nat.
+Proof.
+  intros Hw He (c & Hin & Hu).
+  apply select_no_blackout; auto. apply existsb_exists. now exists c.
+Qed.
+
+Lemma select_writes_only_hidden ls last now cfg exps :
+  forallb exp_okb exps = true ->
+  Forall2 (fun c c' => pv c' = pv c) ls (snd (select ls last now cfg exps)).
+Proof.
+  intros H. pose proof (select_rel ls last now cfg exps H) as R.
+  induction R as [|a b l l' (P & _) R IH]; constructor; auto.
+Qed.
